@@ -138,6 +138,9 @@ class Repo:
                     if not any(rel.startswith(x) for x in EXCLUDE_FROM_RULES):
                         raise AnalysisError('cannot parse %s: %s' % (rel, e))
                     continue
+                if os.environ.get('PONY_SA_RAW') != '1':
+                    from .normalise import normalise_module
+                    tree = normalise_module(name, tree)
                 mod = Mod(name, path, rel, src, tree)
                 mod.is_pkg = fn == '__init__.py'
                 self.modules[name] = mod
